@@ -17,8 +17,10 @@ From OIDC Require Import Lib.
 
 Inductive router := Prov | Leg.
 Inductive authm := AMBasic | AMPost | AMNone | AMPkjwt.
-Record client := Client { c_id : string; c_secret : string; c_auth : authm; c_jwt : bool; c_exp : bool }.
-  (* c_jwt: AccessTokenTypeJWT; c_exp: negative access-token lifetime (tokens are born expired) *)
+Record client := Client { c_id : string; c_secret : string; c_auth : authm; c_jwt : bool; c_exp : bool;
+                          c_refresh : bool; c_exchange : bool }.
+  (* c_jwt: AccessTokenTypeJWT; c_exp: negative access-token lifetime (tokens are born expired);
+     c_refresh / c_exchange: registered for the refresh_token / token-exchange grant *)
 (* How a request identifies its client.  Post id "" = client_id only.  Both: a Basic header
    AND a (different) client_id in the form.  Assertion who fi: a private_key_jwt client
    assertion - [who] is the oracle verdict of VerifyJWTAssertion (Some x: verifies as client x) -
@@ -41,14 +43,55 @@ Inductive tokstr :=
 | Jwt (iss_ok sig_ok expired : bool) (jti : sid) (sub azp : string)
 | Raw (id : sid).
 
-Inductive op :=
+(* operations, generic in how a token string is described *)
+Inductive gop (T : Type) :=
 | Issue (r : router) (client sub : string) (scopes : list string)      (* a complete code flow *)
-| UserInfo (r : router) (t : tokstr)
-| Introspect (r : router) (c : cred) (t : tokstr)
-| Revoke (r : router) (c : cred) (t : tokstr) (hint_access : bool)
-| EndSession (r : router) (hint : option tokstr) (client_id : string)
-| Exchange (r : router) (c : cred) (subj : tokstr) (styp : ttype) (actor : option (tokstr * ttype))
+| UserInfo (r : router) (t : T)
+| Introspect (r : router) (c : cred) (t : T)
+| Revoke (r : router) (c : cred) (t : T) (hint_access : bool)
+| EndSession (r : router) (hint : option T) (client_id : string)
+| Exchange (r : router) (c : cred) (subj : T) (styp : ttype) (actor : option (T * ttype))
            (req : ttype) (scopes aud : list string).
+Arguments Issue {T}. Arguments UserInfo {T}. Arguments Introspect {T}. Arguments Revoke {T}.
+Arguments EndSession {T}. Arguments Exchange {T}.
+(* what one request sees *)
+Definition op := gop tokstr.
+
+(* A token string as PRESENTED, independent of the request it is presented in: a JWS names its
+   issuer (the index of one of the hosts the provider serves, anything else = foreign) and
+   carries a signature that is good or not.  What a request makes of it depends on the request:
+   the issuer must be the one the request is addressed to (the provider derives its issuer from
+   the request host - op.IssuerFromHost; a static issuer is the case of a single host), and the
+   signature can only be checked while the storage hands out the key set. *)
+Inductive ptok :=
+| POpq (id : sid) (sub : string)
+| POpqNoColon
+| PJwt (iss : nat) (sig_ok expired : bool) (jti : sid) (sub azp : string)
+| PRaw (id : sid).
+
+Definition localize (host : nat) (keys_up : bool) (t : ptok) : tokstr :=
+  match t with
+  | POpq id sub => Opq id sub
+  | POpqNoColon => OpqNoColon
+  | PJwt iss sg e jti sub azp => Jwt (iss =? host) (sg && keys_up) e jti sub azp
+  | PRaw id => Raw id
+  end.
+
+Definition map_op {A B : Type} (f : A -> B) (o : gop A) : gop B :=
+  match o with
+  | Issue r c s sc => Issue r c s sc
+  | UserInfo r t => UserInfo r (f t)
+  | Introspect r c t => Introspect r c (f t)
+  | Revoke r c t h => Revoke r c (f t) h
+  | EndSession r hint cid => EndSession r (option_map f hint) cid
+  | Exchange r c subj styp actor req scopes aud =>
+      Exchange r c (f subj) styp (option_map (fun p => (f (fst p), snd p)) actor) req scopes aud
+  end.
+
+(* one step of a history: the host the request is sent to, whether Storage.KeySet works while it
+   is served, the operation *)
+Definition located (ops : list (nat * bool * gop ptok)) : list op :=
+  map (fun x => map_op (localize (fst (fst x)) (snd (fst x))) (snd x)) ops.
 
 Inductive status := S200 | S302 | S400 | S401 | S403 | S500 | SOther.
 Record trec := TRec { tr_client : string; tr_sub : string; tr_actor : string;
@@ -65,7 +108,7 @@ Inductive out :=
 | OErr (st : status) (oauth : bool)
 | OPanic.
 
-Inductive hist_input := Hist (clients : list client) (ops : list op).
+Inductive hist_input := Hist (clients : list client) (ops : list (nat * bool * gop ptok)).
 
 (* ---------------------------------------------------------------- storage (refstore contract) *)
 
@@ -262,7 +305,7 @@ Definition issue (cl : list client) (s : st) (cid sub : string) (scopes : list s
   | None => (s, OErr SOther false)
   | Some c =>
       let t := TRec cid sub "" scopes [cid] (c_exp c) in
-      if string_in "offline_access" scopes
+      if string_in "offline_access" scopes && c_refresh c     (* needsRefreshToken *)
       then ((add_at_rt (nx + 2) (nx + 3) t g, nx + 3), OIssued (AT (nx + 3)) (RT (nx + 2)))
       else ((add_at (nx + 2) t g, nx + 2), OIssued (AT (nx + 2)) NoId)
   end.
@@ -347,6 +390,7 @@ Definition exchange (cl : list client) (r : router) (s : st) (c : cred) (subj : 
   match (match r with Prov => auth_exch_prov cl c | Leg => auth_exch_leg cl c end) with
   | None => (s, match r with Prov => OErr S401 true | Leg => client_err_leg cl c end)
   | Some k =>
+      if negb (c_exchange k) then e400 else      (* unauthorized_client: not registered for the grant *)
       match req with TUnknown => e400 | _ =>
       match read_x g styp subj with
       | None => e400
@@ -406,7 +450,7 @@ Fixpoint state_after (cl : list client) (s : st) (ops : list op) : st :=
 
 Definition init : st := (Store [] [], 0).
 Definition run_hist (i : hist_input) : list out :=
-  match i with Hist cl ops => run cl init ops end.
+  match i with Hist cl ops => run cl init (located ops) end.
 
 (* ---------------------------------------------------------------- equality on observations *)
 
